@@ -169,6 +169,16 @@ func collect(f *flags, overlay map[string][]byte) (*propWork, error) {
 	if len(keys) == 0 && len(lemmas) == 0 {
 		return nil, fmt.Errorf("no contracts or lemmas tagged %s", f.prop)
 	}
+	// every package that carries a contract file is loaded with syntax, so that the types written in
+	// its spec functions resolve in the scope of its own files
+	for _, cf := range db.Files {
+		if strings.HasSuffix(cf, "verif_contracts.go") {
+			rel := strings.TrimPrefix(strings.TrimPrefix(cf, f.repo), "/")
+			if i := strings.LastIndex(rel, "/"); i >= 0 {
+				pkgSet[modulePath+"/"+rel[:i]] = true
+			}
+		}
+	}
 	var patterns []string
 	for p := range pkgSet {
 		patterns = append(patterns, p)
